@@ -22,13 +22,19 @@ ENGINES = [
     {'name': 'seqx', 'path': 'engine/mc.h', 'serves_properties': ['C01', 'C02', 'C03', 'C04', 'C05', 'C07', 'C08', 'C12', 'C09', 'C10', 'C13', 'C14', 'C15', 'C19'], 'kind_free_text': 'explicit-state breadth-first closure search over the real library code; state = operation history replayed on fresh objects, deduplicated by a canonical serialisation of the real data structure; reference model + oracles on every transition'},
 ]
 
+BIG_LIB = ['bintree.c', 'rbtree.c', 'map.c', 'dlist.c', 'slist.c', 'vector.c', 'string.c', 'array.c', 'memory.c', 'heap.c', 'common.c']
+# the large enumerated cases: public API only, except in the builds for C02 (colours, links) and C19 (clean bits; hash.c unity-#included)
+BIG_JOB = {'world': 'big', 'src': 'worlds/big_world.c', 'lib': BIG_LIB + ['hash.c'], 'unity': True, 'flavours': BOTH}
+BIG_JOB_C02 = {'world': 'big', 'src': 'worlds/big_world.c', 'lib': BIG_LIB + ['hash.c'], 'unity': True, 'wflags': ['-DBIG_RB'], 'flavours': BOTH}
+BIG_JOB_C19 = {'world': 'big', 'src': 'worlds/big_world.c', 'lib': BIG_LIB, 'unity': True, 'wflags': ['-DBIG_HASHPRIV'], 'flavours': BOTH}
+
 PROPS = {
     'C12': {
         'level': 'model_checking',
         'claim': 'Exhaustive: every operation of the dlist API applied in every reachable state of 2-3 lists over a pool of 4-6 elements (closure), each transition executed on the real code and compared with an array model in both traversal directions; also under ASan with erased elements poisoned. sort and foreach callbacks verify their private pointer, find is driven with a bare key and a (key, member) comparison function; odd configurations are built with CSTL_DLIST_INITIALIZER; plus lists of up to 4097 elements.',
         'note': E1_NOTE,
         'technique': 'explicit-state BFS to closure on the real code vs reference model (replay-based states)',
-        'jobs': [{'world': 'dlist', 'src': 'worlds/dlist_world.c', 'lib': ['dlist.c'], 'flavours': RELDBG_ALWAYS}, {'world': 'big', 'src': 'worlds/big_world.c', 'lib': ['bintree.c', 'rbtree.c', 'map.c', 'dlist.c', 'slist.c', 'vector.c', 'string.c', 'array.c', 'memory.c', 'heap.c', 'common.c'], 'unity': True, 'flavours': BOTH}],
+        'jobs': [{'world': 'dlist', 'src': 'worlds/dlist_world.c', 'lib': ['dlist.c'], 'flavours': RELDBG_ALWAYS}, BIG_JOB],
         'rule': 'breadth-first search to closure over all operation sequences of the dlist API on 2-3 lists and a pool of 4-6 elements; '
                 'every transition executes the real function and is compared with an array reference model; a state is non-trivial when some list is non-empty',
         'assumptions': ASSUME_E1,
@@ -38,7 +44,7 @@ PROPS = {
         'claim': 'Exhaustive: every slist operation (push_back and pop_front in every state, erase_after at every position relative to the tail) applied in every reachable state of 2-3 lists over 4-6 elements, compared with an array model. The sort comparator and the visit function verify their private pointer; odd configurations are built with CSTL_SLIST_INITIALIZER; plus lists of up to 4097 elements.',
         'note': E1_NOTE,
         'technique': 'explicit-state BFS to closure on the real code vs reference model (replay-based states)',
-        'jobs': [{'world': 'slist', 'src': 'worlds/slist_world.c', 'lib': ['slist.c'], 'flavours': RELDBG_ALWAYS}, {'world': 'big', 'src': 'worlds/big_world.c', 'lib': ['bintree.c', 'rbtree.c', 'map.c', 'dlist.c', 'slist.c', 'vector.c', 'string.c', 'array.c', 'memory.c', 'heap.c', 'common.c'], 'unity': True, 'flavours': BOTH}],
+        'jobs': [{'world': 'slist', 'src': 'worlds/slist_world.c', 'lib': ['slist.c'], 'flavours': RELDBG_ALWAYS}, BIG_JOB],
         'rule': 'breadth-first search to closure over all operation sequences of the slist API (push_back and pop_front applied in EVERY reachable state, '
                 'including empty lists and right after the last element was erased/reversed/sorted/concatenated/swapped) on 2-3 lists and a pool of 4-6 elements; '
                 'a state is non-trivial when some list is non-empty',
@@ -49,7 +55,7 @@ PROPS = {
         'claim': 'Exhaustive within scope: closure over all insert/hinted-insert/erase/clear/swap histories on bintree and rbtree for pools of 6-11 (thorough 8-13) elements with distinct, paired, all-equal and heavy key multisets and three comparators; every state audited through find and both traversals with early stops at every visit. The second tree object is of another kind (own comparator, private pointer, node offset) and receives the content by swap, then takes an insert and an erase; odd configurations are built with the static initialiser macros; every comparator / visitor / clear callback verifies its private pointer. Plus an enumerated family of large histories (100-5000 elements, five insertion and erase orders).',
         'note': E1_NOTE,
         'technique': 'explicit-state BFS to closure on the real code vs set model',
-        'jobs': [{'world': 'tree', 'src': 'worlds/tree_world.c', 'lib': ['bintree.c', 'rbtree.c'], 'flavours': RELDBG_ALWAYS}, {'world': 'big', 'src': 'worlds/big_world.c', 'lib': ['bintree.c', 'rbtree.c', 'map.c', 'dlist.c', 'slist.c', 'vector.c', 'string.c', 'array.c', 'memory.c', 'heap.c', 'common.c'], 'unity': True, 'flavours': BOTH}],
+        'jobs': [{'world': 'tree', 'src': 'worlds/tree_world.c', 'lib': ['bintree.c', 'rbtree.c'], 'wflags': ['-DTREE_PRIVATE=0'], 'flavours': RELDBG_ALWAYS}, BIG_JOB],
         'rule': 'breadth-first search to closure over insert / hinted insert (parent from find) / erase by probe key / erase by member / clear / swap on cstl_bintree and cstl_rbtree, '
                 'pools with distinct, paired, all-equal and one-heavy key multisets, three comparators; every state audited with find for every key, forward and reverse traversal '
                 'and an early stop at every visit index; a state is non-trivial when it holds at least 3 elements',
@@ -60,7 +66,7 @@ PROPS = {
         'claim': 'Exhaustive within scope: every red-black tree shape and colouring reachable with up to 11 (thorough 13) elements by any insert/erase order, red-black rules and the height bound evaluated in every state. Includes swap with a tree object of another element layout followed by insert/erase through the receiving object, and trees of up to 5000 nodes from an enumerated family of insertion/erase orders.',
         'note': E1_NOTE,
         'technique': 'explicit-state BFS to closure on the real code with a structural invariant in every state',
-        'jobs': [{'world': 'tree', 'src': 'worlds/tree_world.c', 'lib': ['bintree.c', 'rbtree.c'], 'flavours': RELDBG_ALWAYS}, {'world': 'big', 'src': 'worlds/big_world.c', 'lib': ['bintree.c', 'rbtree.c', 'map.c', 'dlist.c', 'slist.c', 'vector.c', 'string.c', 'array.c', 'memory.c', 'heap.c', 'common.c'], 'unity': True, 'flavours': BOTH}],
+        'jobs': [{'world': 'tree', 'src': 'worlds/tree_world.c', 'lib': ['bintree.c', 'rbtree.c'], 'flavours': RELDBG_ALWAYS}, BIG_JOB_C02],
         'rule': 'same closure search as C01 (cstl_rbtree configurations carry the oracle): in every reachable state root black, no red-red, equal black height, '
                 'parent links, cstl_rbtree_height max <= 2*log2(n+1); non-trivial = at least 3 elements held',
         'assumptions': ASSUME_E1,
@@ -82,7 +88,7 @@ PROPS = {
         'claim': 'Exhaustive within scope: closure over insert/find/erase/erase_iterator/clear on 4-10 (thorough 5-12) key values incl. equal-comparing twin key objects, stored-pointer identity and live-allocation count after every operation. One configuration orders keys with a comparison function that looks both keys up in a second map and clears (and refills) a third map from inside the clear callback; one uses integers cast to pointers as keys (0 = NULL included) with a NULL value; plus maps of up to 5000 entries.',
         'note': E1_NOTE,
         'technique': 'explicit-state BFS to closure on the real code vs association-list model + allocation accounting',
-        'jobs': [{'world': 'map', 'src': 'worlds/map_world.c', 'lib': ['map.c', 'rbtree.c', 'bintree.c'], 'flavours': RELDBG_ALWAYS}, {'world': 'big', 'src': 'worlds/big_world.c', 'lib': ['bintree.c', 'rbtree.c', 'map.c', 'dlist.c', 'slist.c', 'vector.c', 'string.c', 'array.c', 'memory.c', 'heap.c', 'common.c'], 'unity': True, 'flavours': BOTH}],
+        'jobs': [{'world': 'map', 'src': 'worlds/map_world.c', 'lib': ['map.c', 'rbtree.c', 'bintree.c'], 'flavours': RELDBG_ALWAYS}, BIG_JOB],
         'rule': 'breadth-first search to closure over insert (every key object x value token, with and without iterator), erase by key, find+erase_iterator, clear(callback), clear(NULL) '
                 'on a key universe that contains second key objects comparing equal; reference model = association list of the stored pointers; the allocation layer counts the map\'s live nodes '
                 'after every operation; non-trivial = at least 3 entries held',
@@ -93,12 +99,12 @@ PROPS = {
         'claim': 'Exhaustive within scope: clear applied in every reachable state of the six containers with a counting+poisoning callback; cleared object must equal a freshly initialised one field for field. The clear callback of the map also clears another map (with its own callback and private pointer) while being called. Plus clear on containers of 64 to 3000 elements, plain binary trees 64 to 3000 levels deep.',
         'note': E1_NOTE,
         'technique': 'explicit-state BFS to closure; clear transition with ASan-poisoning callback in every reachable state',
-        'jobs': [{'world': 'tree', 'src': 'worlds/tree_world.c', 'lib': ['bintree.c', 'rbtree.c'], 'flavours': BOTH},
+        'jobs': [{'world': 'tree', 'src': 'worlds/tree_world.c', 'lib': ['bintree.c', 'rbtree.c'], 'wflags': ['-DTREE_PRIVATE=0'], 'flavours': BOTH},
                  {'world': 'heap', 'src': 'worlds/heap_world.c', 'lib': ['heap.c', 'bintree.c', 'common.c'], 'flavours': BOTH},
                  {'world': 'dlist', 'src': 'worlds/dlist_world.c', 'lib': ['dlist.c'], 'flavours': BOTH},
                  {'world': 'slist', 'src': 'worlds/slist_world.c', 'lib': ['slist.c'], 'flavours': BOTH},
                  {'world': 'map', 'src': 'worlds/map_world.c', 'lib': ['map.c', 'rbtree.c', 'bintree.c'], 'flavours': BOTH},
-                 {'world': 'big', 'src': 'worlds/big_world.c', 'lib': ['bintree.c', 'rbtree.c', 'map.c', 'dlist.c', 'slist.c', 'vector.c', 'string.c', 'array.c', 'memory.c', 'heap.c', 'common.c'], 'unity': True, 'flavours': BOTH}],
+                 BIG_JOB],
         'rule': 'the clear transition of the closure searches of C01/C02 (bintree, rbtree), C07 (heap), C12 (dlist), C13 (slist) and C08 (map) is applied in EVERY reachable container state with a '
                 'callback that counts per element and poisons the element (AddressSanitizer manual poisoning = the element was freed); afterwards the container object must be '
                 'field-for-field what its init function produces, so everything reachable from fresh is reachable from cleared; non-trivial = states with at least 3 elements',
@@ -109,7 +115,7 @@ PROPS = {
         'claim': 'Exhaustive within scope: closure over insert / erase (members and non-members) / find (no visitor, rejecting visitor, visitor accepting the j-th offer) / resize (every count x function, also while pending, also 0) / rehash / shrink_to_fit / swap / foreach / clear over 3-5 (thorough 4-6) elements with colliding and repeated keys and bucket counts up to 8; every find result, offer sequence, size and erase effect compared with a set model in every reachable table state (most of them mid-rehash). Visit functions signal acceptance with values of both signs and verify their private pointer; the table-wide clean bit (which survives clear) is part of the state; odd configurations are built with CSTL_HASH_INITIALIZER; plus enumerated large tables (up to 16384 buckets) driven through complete rehashes.',
         'note': E1_NOTE,
         'technique': 'explicit-state BFS to closure on the real code vs set model; key = public struct (geometry, pending geometry, sweep index, relative dirty flags, chains)',
-        'jobs': [{'world': 'hash', 'src': 'worlds/hash_world.c', 'lib': [], 'unity': True, 'flavours': BOTH}, {'world': 'big', 'src': 'worlds/big_world.c', 'lib': ['bintree.c', 'rbtree.c', 'map.c', 'dlist.c', 'slist.c', 'vector.c', 'string.c', 'array.c', 'memory.c', 'heap.c', 'common.c'], 'unity': True, 'flavours': BOTH}],
+        'jobs': [{'world': 'hash', 'src': 'worlds/hash_world.c', 'lib': [], 'unity': True, 'flavours': BOTH}, BIG_JOB],
         'rule': 'breadth-first search to closure; a state is non-trivial when an incremental rehash is pending in it',
         'assumptions': ASSUME_E1,
     },
@@ -118,7 +124,7 @@ PROPS = {
         'claim': 'Exhaustive within scope: in every reachable table state of the C03 search (all stages of grow and shrink rehashes) foreach_const (also with early stop at every visit) is evaluated, and foreach, foreach with a visitor that erases+poisons the visited element, clear(callback) and clear(NULL) are applied as transitions; after clear the object must serialise like a fresh one, so resize/insert/find after clear are part of the closure.',
         'note': E1_NOTE,
         'technique': 'explicit-state BFS to closure on the real code; enumeration entry points crossed with every reachable table state',
-        'jobs': [{'world': 'hash', 'src': 'worlds/hash_world.c', 'lib': [], 'unity': True, 'flavours': BOTH}, {'world': 'big', 'src': 'worlds/big_world.c', 'lib': ['bintree.c', 'rbtree.c', 'map.c', 'dlist.c', 'slist.c', 'vector.c', 'string.c', 'array.c', 'memory.c', 'heap.c', 'common.c'], 'unity': True, 'flavours': BOTH}],
+        'jobs': [{'world': 'hash', 'src': 'worlds/hash_world.c', 'lib': [], 'unity': True, 'flavours': BOTH}, BIG_JOB],
         'rule': 'breadth-first search to closure; a state is non-trivial when an incremental rehash is pending in it',
         'assumptions': ASSUME_E1,
     },
@@ -127,7 +133,7 @@ PROPS = {
         'claim': 'Exhaustive within scope: on every transition of the C03 search the instrumented hash functions log (key, table size, function); load == size/n right after every resize request (also while pending, back to the previous geometry, repeated); single consultation with the requested geometry whenever no rehash is pending; while pending every keyed operation cleans between 1 and 3 dirty buckets (read from the public struct before/after), relocates nodes out of at most 3 buckets, and the dirty count strictly falls - by induction over the closure a rehash finishes within bucket-count keyed operations. On enumerated large tables (up to 16384 buckets) every lookup of a pending rehash must clean at most 3 buckets (at least 1 unless it completes the rehash).',
         'note': E1_NOTE + ' Calls to the built-in cstl_hash_mul cannot be logged (tables that never named a function are explored but not call-counted).',
         'technique': 'explicit-state BFS to closure on the real code with per-transition work accounting (hash-call log + dirty-bucket deltas)',
-        'jobs': [{'world': 'hash', 'src': 'worlds/hash_world.c', 'lib': [], 'unity': True, 'flavours': BOTH}, {'world': 'big', 'src': 'worlds/big_world.c', 'lib': ['bintree.c', 'rbtree.c', 'map.c', 'dlist.c', 'slist.c', 'vector.c', 'string.c', 'array.c', 'memory.c', 'heap.c', 'common.c'], 'unity': True, 'flavours': BOTH}],
+        'jobs': [{'world': 'hash', 'src': 'worlds/hash_world.c', 'lib': [], 'unity': True, 'flavours': BOTH}, BIG_JOB_C19],
         'rule': 'breadth-first search to closure; a state is non-trivial when an incremental rehash is pending in it',
         'assumptions': ASSUME_E1,
     },
@@ -136,7 +142,7 @@ PROPS = {
         'claim': 'Exhaustive within scope: closure over resize / reserve / shrink_to_fit / clear / sort / reverse / swap on two vectors of different element sizes (one with constructor/destructor), size arguments from small values, size+-1, cap, cap+1 and the SIZE_MAX / SIZE_MAX/es / 1 GiB boundary family; after every operation the data pointer must be the start of a live allocation of at least (capacity+1)*es bytes (128-bit arithmetic), element bytes must survive, at() must abort exactly for i >= size, unsatisfiable reserve must change nothing and unsatisfiable resize must abort, constructor/destructor calls are matched slot by slot. The vector is observed through its public functions only; its raw bytes are part of the state. Plus vectors of 100 to 100000 elements and one of 2^31+5 one-byte elements whose destructor must meet every leaving element exactly once.',
         'note': E1_NOTE + ' "Cannot be satisfied" = (n+1)*es unrepresentable or above the 1 GiB line at which the allocation layer refuses deterministically.',
         'technique': 'explicit-state BFS to closure on the real code vs reference model + allocation-layer block accounting',
-        'jobs': [{'world': 'vector', 'src': 'worlds/vector_world.c', 'lib': ['vector.c', 'array.c', 'memory.c'], 'flavours': RELDBG_ALWAYS}, {'world': 'big', 'src': 'worlds/big_world.c', 'lib': ['bintree.c', 'rbtree.c', 'map.c', 'dlist.c', 'slist.c', 'vector.c', 'string.c', 'array.c', 'memory.c', 'heap.c', 'common.c'], 'unity': True, 'flavours': BOTH}],
+        'jobs': [{'world': 'vector', 'src': 'worlds/vector_world.c', 'lib': ['vector.c', 'array.c', 'memory.c'], 'flavours': RELDBG_ALWAYS}, BIG_JOB],
         'rule': 'breadth-first search to closure; quick: 6 element-size pairs, thorough: every element size 1..64; a state is non-trivial when elements are held and some vector has slack capacity',
         'assumptions': ASSUME_E1,
     },
@@ -146,7 +152,7 @@ PROPS = {
         'note': E1_NOTE + ' erase/substr at pos == size: both an abort and the empty result are accepted (documentation silent). Inserting a string into itself is outside the domain.',
         'technique': 'explicit-state BFS to closure on the real code vs reference string',
         'jobs': [{'world': 'string', 'src': 'worlds/string_world.c', 'lib': ['string.c', 'vector.c', 'array.c', 'memory.c'], 'flavours': RELDBG_ALWAYS},
-                 {'world': 'wstring', 'src': 'worlds/string_world.c', 'wflags': ['-DWIDE'], 'lib': ['string.c', 'vector.c', 'array.c', 'memory.c'], 'flavours': RELDBG_ALWAYS}, {'world': 'big', 'src': 'worlds/big_world.c', 'lib': ['bintree.c', 'rbtree.c', 'map.c', 'dlist.c', 'slist.c', 'vector.c', 'string.c', 'array.c', 'memory.c', 'heap.c', 'common.c'], 'unity': True, 'flavours': BOTH}],
+                 {'world': 'wstring', 'src': 'worlds/string_world.c', 'wflags': ['-DWIDE'], 'lib': ['string.c', 'vector.c', 'array.c', 'memory.c'], 'flavours': RELDBG_ALWAYS}, BIG_JOB],
         'rule': 'breadth-first search to closure; a state is non-trivial when string A holds at least two characters',
         'assumptions': ASSUME_E1,
     },
@@ -155,7 +161,7 @@ PROPS = {
         'claim': 'Exhaustive within scope: closure over alloc (0..4 elements, unrepresentable and refused counts) / set (two external buffers) / slice (into another object and in place, bounds from {0,1,2,len-1,len,len+1,nm,nm+1,nm-off,nm-off+1,SIZE_MAX-1,SIZE_MAX,SIZE_MAX-off+1}) / unslice / reset / release on three array objects; every state audited with at() at {0,len-1,len,SIZE_MAX} against base+(off+i)*sz inside the buffer, and with allocation accounting (at least one live block per referenced buffer, none once every reference is gone, no double/foreign free). release is driven with and without out-parameter; odd configurations are built with CSTL_ARRAY_INITIALIZER; plus 65535-70000 simultaneous views of one buffer.',
         'note': E1_NOTE + ' Open cases accepted either way: slice(0,0) of an object without buffer, and a range past the object\'s own length but inside the buffer.',
         'technique': 'explicit-state BFS to closure on the real code vs view/buffer reference model + allocation accounting',
-        'jobs': [{'world': 'array', 'src': 'worlds/array_world.c', 'lib': ['array.c', 'memory.c'], 'flavours': RELDBG_ALWAYS}, {'world': 'big', 'src': 'worlds/big_world.c', 'lib': ['bintree.c', 'rbtree.c', 'map.c', 'dlist.c', 'slist.c', 'vector.c', 'string.c', 'array.c', 'memory.c', 'heap.c', 'common.c'], 'unity': True, 'flavours': BOTH}],
+        'jobs': [{'world': 'array', 'src': 'worlds/array_world.c', 'lib': ['array.c', 'memory.c'], 'flavours': RELDBG_ALWAYS}, BIG_JOB],
         'rule': 'breadth-first search to closure; a state is non-trivial when some object is a view with a non-zero offset',
         'assumptions': ASSUME_E1,
     },
@@ -164,7 +170,7 @@ PROPS = {
         'claim': 'Exhaustive within scope: closure over alloc (with clear callback, and of size 0) / share / swap / reset / weak_from / lock / weak_reset / weak_swap on 3 (thorough 4) shared and 2 weak pointer objects, and alloc / release / swap / reset on 2 unique pointer objects; for every single operation the sequence of destruction events (clear callback, free of the managed block, free of the bookkeeping block) observed through the callback and the allocation layer must equal the reference model\'s prediction for that operation - which pins never-earlier and never-later; get(), unique() and the number of live blocks are compared in every state. One configuration uses a clear callback that resets every weak pointer referring to the allocation being cleared; odd configurations are built with the *_PTR_INITIALIZER macros; plus 65535, 65536, 65537 and 70000 simultaneous owners / weak references of one allocation, released in two orders.',
         'note': E1_NOTE + ' lock() resets its target first (as documented by the code), so locking into the last owner of the same allocation destroys it and yields an empty pointer.',
         'technique': 'explicit-state BFS to closure on the real code vs reference-count model with per-operation destruction-event oracle',
-        'jobs': [{'world': 'ptr', 'src': 'worlds/ptr_world.c', 'lib': ['memory.c'], 'flavours': RELDBG_ALWAYS}, {'world': 'big', 'src': 'worlds/big_world.c', 'lib': ['bintree.c', 'rbtree.c', 'map.c', 'dlist.c', 'slist.c', 'vector.c', 'string.c', 'array.c', 'memory.c', 'heap.c', 'common.c'], 'unity': True, 'flavours': BOTH}],
+        'jobs': [{'world': 'ptr', 'src': 'worlds/ptr_world.c', 'lib': ['memory.c'], 'flavours': RELDBG_ALWAYS}, BIG_JOB],
         'rule': 'breadth-first search to closure; a state is non-trivial when some allocation has at least two references (or, for unique pointers, some pointer owns memory)',
         'assumptions': ASSUME_E1,
     },
@@ -227,7 +233,7 @@ PROPS = {
         'claim': 'Complete enumeration of a finite program family: 42 (entry point, argument position) pairs - every function of memory.h and array.h that reads, transfers or releases a guarded / unique / shared / weak pointer or an array object - x every object state (NULL / non-NULL; empty / owning / co-owned; empty / weak to live / weak to dead; empty / whole / slice) x copy kind (struct assignment, memcpy, relocation with the original storage scrubbed) x, for two-object calls, every state of the OTHER argument (empty; owning / weak to live memory / whole array; co-owned / weak to dead memory / slice; or the original the copy was made from): the call on the stray copy must end in abort() (not return, not an assertion, not a sanitizer report), and the same call on the original object must still work. The table is cross-checked against the declarations gcc -aux-info finds in the two headers; declared entry points missing from the table are reported in the evidence. The converse (properly moved objects never abort) is decided by the same check: the C05 and C14 closure searches (ptr and array worlds) run with their no-unexpected-abort oracle attributed to C20, every interleaving of the C06 scheduler scenarios runs with abort() inside the library as the only oracle, and 65535 to 70000 simultaneous owners / weak references / array views of one allocation are created and released with the library functions only.',
         'note': 'Documented non-aborting calls are excluded: *_init, cstl_guarded_ptr_set and the destination of cstl_guarded_ptr_copy only write the guard (re-stamping it), cstl_array_size never touches the pointer.',
         'technique': 'exhaustive enumeration of entry point x argument position x object state x copy kind with an abort/return oracle under ASan; explicit-state closure search and exhaustive interleaving exploration of properly moved pointers with a no-abort oracle',
-        'jobs': [{'world': 'stray', 'src': 'worlds/stray_world.c', 'gen': 'lib/gen_decls.py', 'lib': ['memory.c', 'array.c'], 'flavours': RELDBG_ALWAYS}, {'world': 'ptr', 'src': 'worlds/ptr_world.c', 'lib': ['memory.c'], 'flavours': RELDBG_ALWAYS}, {'world': 'array', 'src': 'worlds/array_world.c', 'lib': ['array.c', 'memory.c'], 'flavours': RELDBG_ALWAYS}, {'world': 'c06', 'src': 'worlds/c06_world.c', 'lib': ['memory.c'], 'san': ['-g', '-fsanitize=thread'], 'wsan': ['-g'], 'extra_src': ['engine/sched.c'], 'link': ['-Wl,--wrap=malloc,--wrap=calloc,--wrap=realloc,--wrap=free,--wrap=abort,--wrap=sched_yield'], 'flavours': RELDBG_ALWAYS}, {'world': 'big', 'src': 'worlds/big_world.c', 'lib': ['bintree.c', 'rbtree.c', 'map.c', 'dlist.c', 'slist.c', 'vector.c', 'string.c', 'array.c', 'memory.c', 'heap.c', 'common.c'], 'unity': True, 'flavours': BOTH}],
+        'jobs': [{'world': 'stray', 'src': 'worlds/stray_world.c', 'gen': 'lib/gen_decls.py', 'lib': ['memory.c', 'array.c'], 'flavours': RELDBG_ALWAYS}, {'world': 'ptr', 'src': 'worlds/ptr_world.c', 'lib': ['memory.c'], 'flavours': RELDBG_ALWAYS}, {'world': 'array', 'src': 'worlds/array_world.c', 'lib': ['array.c', 'memory.c'], 'flavours': RELDBG_ALWAYS}, {'world': 'c06', 'src': 'worlds/c06_world.c', 'lib': ['memory.c'], 'san': ['-g', '-fsanitize=thread'], 'wsan': ['-g'], 'extra_src': ['engine/sched.c'], 'link': ['-Wl,--wrap=malloc,--wrap=calloc,--wrap=realloc,--wrap=free,--wrap=abort,--wrap=sched_yield'], 'flavours': RELDBG_ALWAYS}, BIG_JOB],
         'rule': 'stray world: one evaluation = one call on a stray copy or on the original, non-trivial = calls on stray copies, all points distinct; ptr/array worlds: breadth-first closure as for C05/C14; c06 world: every interleaving of every scenario as for C06; big world: listed large cases',
         'assumptions': ['abort() is observed through ld --wrap=abort (longjmp back into the harness)'],
     },
